@@ -295,6 +295,20 @@ func (e *tenv) expr(x ast.Expr, want ty) (string, ty) {
 	return e.bad("expression %T", x)
 }
 
+func exprStringStmt(st ast.Stmt) string {
+	switch x := st.(type) {
+	case *ast.ExprStmt:
+		return exprString(x.X)
+	case *ast.AssignStmt:
+		out := ""
+		for _, r := range x.Rhs {
+			out += exprString(r)
+		}
+		return out
+	}
+	return ""
+}
+
 func exprString(x ast.Expr) string {
 	var sb strings.Builder
 	_ = sb
@@ -303,6 +317,8 @@ func exprString(x ast.Expr) string {
 		return v.Name
 	case *ast.SelectorExpr:
 		return exprString(v.X) + "." + v.Sel.Name
+	case *ast.UnaryExpr:
+		return exprString(v.X)
 	}
 	return fmt.Sprintf("%T", x)
 }
@@ -663,6 +679,41 @@ func main() {
 			}
 			return true
 		})
+	}
+
+	// the ticker goroutine of maintenance(): what a tick does first, and whether it can block on the policy lock
+	if fd := findFunc(internal, "maintenance"); fd != nil {
+		found := false
+		ast.Inspect(fd.Body, func(n ast.Node) bool {
+			cc, ok := n.(*ast.CommClause)
+			if !ok || cc.Comm == nil || !strings.Contains(exprStringStmt(cc.Comm), "maintenanceTicker.C") {
+				return true
+			}
+			found = true
+			first := false
+			if len(cc.Body) > 0 {
+				if es, ok := cc.Body[0].(*ast.ExprStmt); ok {
+					if call, ok := es.X.(*ast.CallExpr); ok && strings.HasSuffix(exprString(call.Fun), ".RefreshNowCache") {
+						first = true
+					}
+				}
+			}
+			blocking := false
+			for _, st := range cc.Body {
+				ast.Inspect(st, func(m ast.Node) bool {
+					if call, ok := m.(*ast.CallExpr); ok && strings.HasSuffix(exprString(call.Fun), "policyMu.Lock") {
+						blocking = true
+					}
+					return true
+				})
+			}
+			fmt.Fprintf(&cb, "Definition c_tick_refresh_first : bool := %v.\nDefinition c_tick_blocking_lock : bool := %v.\n", first, blocking)
+			rep.Consts = append(rep.Consts, "tick_refresh_first", "tick_blocking_lock")
+			return false
+		})
+		if !found {
+			fail("maintenance: no case on maintenanceTicker.C found")
+		}
 	}
 
 	consV := cb.String()
